@@ -112,6 +112,9 @@ def run(ctx):
         script = None
         if r.random() < 0.3:
             script = ["field", "index", "replace", "concat", "write"]      # the interleaving named by the property
+        elif r.random() < 0.2:
+            # use after write: a selection whose fields were read is written (writing may compact its buffer), then modified and read / written again
+            script = ["index", "allfields", "write", "replace", "allfields", "write"]
         for step in range(r.randint(1, maxops) if script is None else len(script)):
             nrows = len(E)
             op = script[step] if script else r.choice(["len", "field", "field", "slice", "mask", "fancy", "index", "concat", "replace", "tolist", "write", "write"])
@@ -132,6 +135,18 @@ def run(ctx):
                 ctx.check(key, False, "%s/fails-in-%s-mode-only:%s@%s" % (key, side, et, site), "%s raised %s in %s mode only: %s" % (op, et, side, str(exc)[:120]),
                           dict(wit, error=str(exc)[:300], traceback="".join(_tb.format_exception(type(chain), chain, chain.__traceback__))[-1800:]), nt)
 
+            if op == "allfields":
+                res = both(lambda: observe(L, fmt), lambda: observe(E, fmt))
+                history.append(["allfields"])
+                if res[0] == "raised-one":
+                    one_sided(res[1], res[2])
+                    return
+                if res[0] == "ok" and not tables.values_equal([list(x) for x in res[1]], [list(x) for x in res[2]]):
+                    differ("rows", res[1], res[2])
+                    return
+                ctx.judged(key, nt)
+                unread = False
+                continue
             if op == "len":
                 res = both(lambda: len(L), lambda: len(E))
                 if res[0] == "ok" and res[1] != res[2]:
@@ -225,6 +240,8 @@ def run(ctx):
                             if only_float:
                                 kind = "written bytes:float-re-rendered-after-inexact-parse(<=4ulp)"
                     differ(kind, lz[-300:], eg[-300:])
+                    if kind.endswith("header-missing-in-eager-mode-after-indexing") or kind.endswith("(<=4ulp)"):
+                        continue        # a difference confined to the header / to re-rendered floats does not end the program: what follows a write is judged too
                     return
                 ctx.judged(key, nt)
                 m5(L, wit, op)
@@ -236,12 +253,16 @@ def run(ctx):
                 history.append(["slice", [sl.start, sl.stop, sl.step]])
             elif op == "mask":
                 mk = np.array([r.random() < 0.6 for _ in range(nrows)], dtype=bool)
+                if r.random() < 0.3 and nrows:
+                    mk = mk.tolist()        # a mask given as a Python list of bools (the form the docstrings use)
                 fl, fe = (lambda: L[mk]), (lambda: E[mk])
-                history.append(["mask", mk.tolist()])
+                history.append(["mask", mk if isinstance(mk, list) else mk.tolist(), "list" if isinstance(mk, list) else "array"])
             elif op == "fancy":
                 idx = np.array([r.randint(-nrows, nrows - 1) for _ in range(r.randint(0, 5))] if nrows else [], dtype=int)
+                if r.random() < 0.3 and len(idx):
+                    idx = idx.tolist()      # row numbers as a Python list
                 fl, fe = (lambda: L[idx]), (lambda: E[idx])
-                history.append(["fancy", idx.tolist()])
+                history.append(["fancy", idx if isinstance(idx, list) else idx.tolist(), "list" if isinstance(idx, list) else "array"])
             elif op == "concat":
                 n0 = len(E0)
                 idx = np.array([r.randint(0, n0 - 1) for _ in range(r.randint(0, 3))] if n0 else [], dtype=int)
